@@ -336,6 +336,7 @@ func (s *segment) WriteMessageSet(ms []byte, entries []*entry) error {
 	if _, err := s.write(ms, entries); err != nil {
 		return err
 	}
+	crashPoint("append:log-written")
 	return s.Index.writeEntries(entries)
 }
 
@@ -473,9 +474,11 @@ func (s *segment) Replace(old *segment) error {
 	if err := os.Rename(s.logPath(), old.logPath()); err != nil {
 		return err
 	}
+	crashPoint("replace:log-renamed")
 	if err := os.Rename(s.indexPath(), old.indexPath()); err != nil {
 		return err
 	}
+	crashPoint("replace:index-renamed")
 	s.suffix = ""
 	log, err := os.OpenFile(s.logPath(), os.O_RDWR|os.O_CREATE|os.O_APPEND, 0644)
 	if err != nil {
